@@ -357,10 +357,232 @@ struct FnCase {
     assigns: Vec<(bool, Cs)>,
 }
 
+// ---- array parameters ---------------------------------------------------------------------------
+
+/// Declaration of an ARRAY parameter: `A%()` / `A()` (compact) or `A() AS type` (extended).
+#[derive(Clone, Copy, PartialEq, Eq, Hash, Debug)]
+enum APDecl {
+    Compact(Sp),
+    /// Ty::B(_) or Ty::Udt
+    Ext(Ty),
+}
+
+/// How the module-level array that is passed to the parameter is DIMmed.
+#[derive(Clone, Copy, PartialEq, Eq, Hash, Debug)]
+enum ArgDecl {
+    /// `DIM G%(1 TO 3)`
+    CompactSuffix,
+    /// `DIM G(1 TO 3)` — only when the default type of G's first letter is the element type
+    CompactBare,
+    /// `DIM G(1 TO 3) AS INTEGER`
+    Ext,
+}
+
+/// The statement of an array-parameter unit that the checker must reject (extended parameters only).
+#[derive(Clone, Copy, PartialEq, Eq, Hash, Debug)]
+enum ArrRej {
+    /// `A$ = "x"`
+    ScalarAssign(Q),
+    /// `PRINT A$`
+    ScalarPrint(Q),
+    /// `A$(1) = "x"`
+    ElemAssign(Q),
+    /// `PRINT A$(1)`
+    ElemPrint(Q),
+}
+
+impl ArrRej {
+    fn q(self) -> Q {
+        match self {
+            ArrRej::ScalarAssign(q) | ArrRej::ScalarPrint(q) | ArrRej::ElemAssign(q) | ArrRej::ElemPrint(q) => q,
+        }
+    }
+}
+
+/// `base` is an array parameter of a SUB/FUNCTION; a module-level array of the same element type is passed.
+#[derive(Clone, PartialEq, Eq, Hash, Debug)]
+struct ArrCase {
+    base: String,
+    p: APDecl,
+    arg: ArgDecl,
+    /// the caller's array has the same base name as the parameter (else base + "w": same first letter)
+    same_name: bool,
+    func_scope: bool,
+    decl_cs: Cs,
+    /// spellings of the parameter used inside the subprogram (all of them denote the parameter)
+    refs: Vec<RefSp>,
+    /// compact parameter only: a scalar of the same base name whose type is another one than the element type
+    scalar: Option<(Sp, Cs)>,
+    reject: Option<(ArrRej, Cs)>,
+    rot: usize,
+}
+
+#[derive(Clone, Copy, PartialEq, Eq, Debug)]
+enum ARes {
+    Param,
+    Reject,
+    Undet(&'static str),
+}
+
+impl ArrCase {
+    fn dq(&self, t: &DefTable) -> Q {
+        t.q[letter_of(&self.base)]
+    }
+    /// The built-in element type (None: the user-defined type).
+    fn elem_q(&self, t: &DefTable) -> Option<Q> {
+        match self.p {
+            APDecl::Compact(sp) => Some(sp.unwrap_or(self.dq(t))),
+            APDecl::Ext(ty) => ty.matching(),
+        }
+    }
+    /// What `name<sp>(i)` denotes inside the subprogram.
+    fn res(&self, t: &DefTable, sp: Sp) -> ARes {
+        match self.p {
+            // "after DIM A AS type, A (bare or with the matching suffix) is that one variable and any other
+            // suffix on A is rejected" — README: parameters declared AS type are extended names
+            APDecl::Ext(ty) => match sp {
+                None => ARes::Param,
+                Some(q) if ty.matching() == Some(q) => ARes::Param,
+                Some(_) => ARes::Reject,
+            },
+            // a compact name: the bare spelling is the variable of the default type of its first letter
+            APDecl::Compact(d) => {
+                if sp.unwrap_or(self.dq(t)) == d.unwrap_or(self.dq(t)) {
+                    ARes::Param
+                } else {
+                    ARes::Undet("an undeclared array name inside a subprogram (implicit arrays are outside the statement)")
+                }
+            }
+        }
+    }
+    /// The `arg` kinds that can be written for this parameter under this DEFtype table.
+    fn arg_valid(&self, t: &DefTable, arg: ArgDecl) -> bool {
+        match arg {
+            ArgDecl::Ext => true,
+            ArgDecl::CompactSuffix => self.elem_q(t).is_some(),
+            ArgDecl::CompactBare => self.elem_q(t) == Some(self.dq(t)),
+        }
+    }
+    /// Spellings through which the caller's array can be referenced in the global scope.
+    fn g_sps(&self, t: &DefTable) -> Vec<Sp> {
+        let eq = self.elem_q(t);
+        match self.arg {
+            ArgDecl::CompactSuffix => {
+                let mut v = vec![eq];
+                if eq == Some(self.dq(t)) {
+                    v.push(None);
+                }
+                v
+            }
+            ArgDecl::CompactBare => vec![None, eq],
+            ArgDecl::Ext => {
+                let mut v = vec![None];
+                if eq.is_some() {
+                    v.push(eq);
+                }
+                v
+            }
+        }
+    }
+    /// Is `sp` a scalar spelling that the stated rules make a separate local variable next to a COMPACT array parameter?
+    fn scalar_ok(&self, t: &DefTable, sp: Sp) -> bool {
+        matches!(self.p, APDecl::Compact(_)) && Some(sp.unwrap_or(self.dq(t))) != self.elem_q(t)
+    }
+    fn undetermined(&self, t: &DefTable) -> Option<&'static str> {
+        if !self.arg_valid(t, self.arg) {
+            return Some("array argument whose element type differs from the parameter's");
+        }
+        if matches!(self.p, APDecl::Ext(Ty::Fix(_))) {
+            return Some("STRING * n parameter");
+        }
+        if let Some((sp, _)) = self.scalar {
+            if !self.scalar_ok(t, sp) {
+                return Some("a scalar and an array parameter of the same name and type in one subprogram");
+            }
+        }
+        if let Some((r, _)) = self.reject {
+            if self.res(t, Some(r.q())) != ARes::Reject {
+                return Some("must-reject statement that the rules do not reject");
+            }
+        }
+        if !self.refs.iter().any(|r| self.res(t, r.sp) == ARes::Param) {
+            return Some("array parameter never referenced");
+        }
+        None
+    }
+    fn p_kind(&self) -> &'static str {
+        match self.p {
+            APDecl::Compact(None) => "compact-bare",
+            APDecl::Compact(Some(_)) => "compact-suffix",
+            APDecl::Ext(Ty::Udt) => "extended-udt",
+            APDecl::Ext(_) => "extended-builtin",
+        }
+    }
+    fn arg_kind(&self) -> &'static str {
+        match self.arg {
+            ArgDecl::CompactSuffix => "compact-suffix",
+            ArgDecl::CompactBare => "compact-bare",
+            ArgDecl::Ext => "extended",
+        }
+    }
+}
+
+// ---- constants: global CONST shadowed by a local CONST -------------------------------------------
+
+/// `CONST name<sp> = literal of kind`
+#[derive(Clone, Copy, PartialEq, Eq, Hash, Debug)]
+struct CDef {
+    sp: Sp,
+    kind: Q,
+}
+
+impl CDef {
+    fn valid(self) -> bool {
+        self.sp.is_none() || self.sp == Some(self.kind)
+    }
+    fn label(self) -> String {
+        format!("{}:{}", sp_name(self.sp), self.kind.type_kw())
+    }
+}
+
+/// A global CONST, one subprogram that defines a CONST of the same bare name, and subprograms that do not.
+#[derive(Clone, PartialEq, Eq, Hash, Debug)]
+struct ConstCase {
+    base: String,
+    g: CDef,
+    l: CDef,
+    decl_cs: Cs,
+    /// the redefining subprogram is a FUNCTION
+    redef_func: bool,
+    /// the first non-redefining subprogram is a FUNCTION (the second one is the other kind)
+    other_func: bool,
+    /// module-level statements after the subprogram definitions
+    tail: bool,
+    rot: usize,
+}
+
+/// (literal, printed value, printed value of `name * 2` / `name + "!"`)
+fn const_val(kind: Q, local: bool) -> (&'static str, &'static str, &'static str) {
+    match (kind, local) {
+        (Q::Int, false) => ("7", "7", "14"),
+        (Q::Int, true) => ("12", "12", "24"),
+        (Q::Lng, false) => ("100007", "100007", "200014"),
+        (Q::Lng, true) => ("100012", "100012", "200024"),
+        (Q::Sng, false) => ("7.5", "7.5", "15"),
+        (Q::Sng, true) => ("12.5", "12.5", "25"),
+        (Q::Dbl, false) => ("7.25#", "7.25", "14.5"),
+        (Q::Dbl, true) => ("12.25#", "12.25", "24.5"),
+        (Q::Str, false) => ("\"g07\"", "g07", "g07!"),
+        (Q::Str, true) => ("\"l12\"", "l12", "l12!"),
+    }
+}
+
 #[derive(Clone, PartialEq, Eq, Hash, Debug)]
 enum Unit {
     Name(Case),
     Func(FnCase),
+    Arr(ArrCase),
+    Const(ConstCase),
 }
 
 // ------------------------------------------------------------------------------------------------
@@ -518,6 +740,8 @@ struct UnitOut {
     g1: Vec<L>,
     g2: Vec<L>,
     sub: Vec<L>,
+    /// module-level statements after the subprogram definitions
+    tail: Vec<L>,
     udt: bool,
 }
 
@@ -917,6 +1141,245 @@ fn render_fn(f: &FnCase, t: &DefTable, idx: usize, up: bool) -> UnitOut {
     out
 }
 
+fn print_l(marker: String, expr: &str, expected: &str, tag: &str) -> L {
+    L { text: format!("PRINT \"{}=\"; {}", marker, expr), tag: tag.to_string(), kind: LK::Print { marker, expected: expected.to_string() }, wrote: None }
+}
+
+fn render_arr(a: &ArrCase, t: &DefTable, idx: usize, up: bool) -> UnitOut {
+    let mut out = UnitOut::default();
+    let eq = a.elem_q(t);
+    let udt = eq.is_none();
+    out.udt = udt;
+    let is_str = eq == Some(Q::Str);
+    let gbase = if a.same_name { a.base.clone() } else { format!("{}w", a.base) };
+    let nm = |base: &str, sp: Sp, cs: Cs| -> String {
+        let mut s = styled(base, cs, up);
+        if let Some(q) = sp {
+            s.push(q.ch());
+        }
+        s
+    };
+    let el = |name: String, i: usize| -> String { if udt { format!("{}({}).{}", name, i, UDT_FIELD) } else { format!("{}({})", name, i) } };
+    let mut next_marker = 0u32;
+    let mut marker = || {
+        next_marker += 1;
+        format!("k{}.{}", idx, next_marker)
+    };
+    let explicit = t.explicit[letter_of(&a.base)];
+    let bare_rule = if explicit { "bare-deftype" } else { "bare-default" };
+    // ---- the caller's array
+    let g_sps = a.g_sps(t);
+    let gs = |i: usize| -> (Sp, Cs) { (g_sps[(i + a.rot) % g_sps.len()], CASES[(i + a.rot) % 4]) };
+    let g_tag = |sp: Sp| -> String {
+        match (a.arg, sp) {
+            (ArgDecl::Ext, None) => "array-extended-bare".into(),
+            (ArgDecl::Ext, Some(_)) => "array-extended-matching-suffix".into(),
+            (ArgDecl::CompactBare, _) | (_, None) => format!("array-compact-{}", bare_rule),
+            _ => "array-compact-suffix".into(),
+        }
+    };
+    let dim = match a.arg {
+        ArgDecl::CompactSuffix => format!("DIM {}(1 TO 3)", nm(&gbase, eq, a.decl_cs)),
+        ArgDecl::CompactBare => format!("DIM {}(1 TO 3)", nm(&gbase, None, a.decl_cs)),
+        ArgDecl::Ext => format!("DIM {}(1 TO 3) AS {}", nm(&gbase, None, a.decl_cs), match a.p {
+            APDecl::Ext(ty) => ty.text(),
+            APDecl::Compact(_) => eq.map(|q| q.type_kw().to_string()).unwrap_or_default(),
+        }),
+    };
+    out.g1.push(stmt(dim, match a.arg { ArgDecl::Ext => "decl-array-extended", _ => "decl-array-compact" }));
+    // element -> value id
+    let mut store: [u32; 4] = [0; 4];
+    let mut next_val = 1u32;
+    for i in 1..=2usize {
+        let (sp, cs) = gs(i);
+        let mut l = stmt(format!("{} = {}", el(nm(&gbase, sp, cs), i), val_lit(next_val, is_str)), &g_tag(sp));
+        l.wrote = Some((val_text(next_val, is_str), None));
+        store[i] = next_val;
+        next_val += 1;
+        out.g1.push(l);
+    }
+    let show = |id: u32| -> String { if id == 0 { if is_str { String::new() } else { "0".into() } } else { val_text(id, is_str) } };
+    for i in 1..=2usize {
+        let (sp, cs) = gs(i + 1);
+        out.g1.push(print_l(marker(), &el(nm(&gbase, sp, cs), i), &show(store[i]), &g_tag(sp)));
+    }
+    // ---- the call
+    let sub_name = if a.func_scope { format!("Fa{}%", idx) } else { format!("Sa{}", idx) };
+    let (asp, acs) = gs(0);
+    let arg_text = format!("{}()", nm(&gbase, asp, acs));
+    out.g1.push(stmt(if a.func_scope { format!("Wret% = {}({})", sub_name, arg_text) } else { format!("{} {}", sub_name, arg_text) }, "call-with-array-argument"));
+    // ---- the subprogram
+    let pdecl = match a.p {
+        APDecl::Compact(sp) => format!("{}()", nm(&a.base, sp, a.decl_cs)),
+        APDecl::Ext(ty) => format!("{}() AS {}", nm(&a.base, None, a.decl_cs), ty.text()),
+    };
+    out.sub.push(stmt(
+        if a.func_scope { format!("FUNCTION {} ({})", sub_name, pdecl) } else { format!("SUB {} ({})", sub_name, pdecl) },
+        &format!("decl-array-parameter-{}", a.p_kind()),
+    ));
+    let p_tag = |sp: Sp| -> String {
+        match (a.p, sp) {
+            (APDecl::Ext(Ty::Udt), _) => "arrparam-extended-udt-bare".into(),
+            (APDecl::Ext(_), None) => "arrparam-extended-bare".into(),
+            (APDecl::Ext(_), Some(_)) => "arrparam-extended-matching-suffix".into(),
+            (APDecl::Compact(None), _) | (APDecl::Compact(_), None) => format!("arrparam-compact-{}", bare_rule),
+            (APDecl::Compact(Some(_)), Some(_)) => "arrparam-compact-suffix".into(),
+        }
+    };
+    let ps: Vec<RefSp> = a.refs.iter().filter(|r| a.res(t, r.sp) == ARes::Param).cloned().collect();
+    if !ps.is_empty() {
+        // the elements hold the caller's values
+        for (i, rf) in ps.iter().enumerate() {
+            let e = 1 + i % 3;
+            out.sub.push(print_l(marker(), &el(nm(&a.base, rf.sp, rf.cs2), e), &show(store[e]), &p_tag(rf.sp)));
+        }
+        // written through one spelling ...
+        let writers = [ps[0], ps[1 % ps.len()], ps[ps.len() - 1]];
+        for (k, rf) in writers.iter().enumerate() {
+            let e = k + 1;
+            let mut l = stmt(format!("{} = {}", el(nm(&a.base, rf.sp, rf.cs), e), val_lit(next_val, is_str)), &p_tag(rf.sp));
+            l.wrote = Some((val_text(next_val, is_str), None));
+            store[e] = next_val;
+            next_val += 1;
+            out.sub.push(l);
+        }
+        // ... read through every spelling
+        for (i, rf) in ps.iter().enumerate() {
+            for k in 0..3usize {
+                let e = 1 + (i + k) % 3;
+                if k == 2 && ps.len() > 2 {
+                    continue;
+                }
+                out.sub.push(print_l(marker(), &el(nm(&a.base, rf.sp, if k == 0 { rf.cs } else { rf.cs2 }), e), &show(store[e]), &p_tag(rf.sp)));
+            }
+        }
+    }
+    if let Some((sp, cs)) = a.scalar {
+        // a compact array parameter does not reserve the other suffixes: a fresh local scalar
+        let s_str = sp.unwrap_or(a.dq(t)) == Q::Str;
+        let tag = "arrparam-compact-other-type-scalar";
+        out.sub.push(print_l(marker(), &nm(&a.base, sp, cs), if s_str { "" } else { "0" }, tag));
+        let mut l = stmt(format!("{} = {}", nm(&a.base, sp, cs), val_lit(next_val, s_str)), tag);
+        l.wrote = Some((val_text(next_val, s_str), None));
+        out.sub.push(l);
+        out.sub.push(print_l(marker(), &nm(&a.base, sp, cs), &val_text(next_val, s_str), tag));
+        if let Some(rf) = ps.first() {
+            out.sub.push(print_l(marker(), &el(nm(&a.base, rf.sp, rf.cs), 1), &show(store[1]), &p_tag(rf.sp)));
+        }
+    }
+    if let Some((r, cs)) = a.reject {
+        let q = r.q();
+        let n = nm(&a.base, Some(q), cs);
+        let (text, form) = match r {
+            ArrRej::ScalarAssign(_) => (format!("{} = {}", n, val_lit(99, q == Q::Str)), "scalar"),
+            ArrRej::ScalarPrint(_) => (format!("PRINT \"k{}.r=\"; {}", idx, n), "scalar"),
+            ArrRej::ElemAssign(_) => (format!("{}(1) = {}", n, val_lit(99, q == Q::Str)), "element"),
+            ArrRej::ElemPrint(_) => (format!("PRINT \"k{}.r=\"; {}(1)", idx, n), "element"),
+        };
+        out.sub.push(L { text, tag: format!("arrparam-extended-foreign-suffix-accepted:{}", form), kind: LK::Reject, wrote: None });
+    }
+    if a.func_scope {
+        out.sub.push(stmt(format!("{} = 1", sub_name), "subprogram-frame"));
+        out.sub.push(stmt("END FUNCTION".to_string(), "subprogram-frame"));
+    } else {
+        out.sub.push(stmt("END SUB".to_string(), "subprogram-frame"));
+    }
+    // ---- after the call: the elements written inside the subprogram are the caller's
+    for i in 1..=3usize {
+        let (sp, cs) = gs(i + 2);
+        out.g2.push(print_l(marker(), &el(nm(&gbase, sp, cs), i), &show(store[i]), "after-call-array-argument-updated"));
+    }
+    out
+}
+
+fn render_const(c: &ConstCase, _t: &DefTable, idx: usize, up: bool) -> UnitOut {
+    let mut out = UnitOut::default();
+    let nm = |sp: Sp, cs: Cs| -> String {
+        let mut s = styled(&c.base, cs, up);
+        if let Some(q) = sp {
+            s.push(q.ch());
+        }
+        s
+    };
+    let mut next_marker = 0u32;
+    let mut marker = || {
+        next_marker += 1;
+        format!("k{}.{}", idx, next_marker)
+    };
+    let mut n_ref = c.rot;
+    // Statements that reference the constant `d` (the innermost definition in `scope`):
+    // directly (bare and suffixed), inside a later CONST expression, as a STRING * n length.
+    let mut uses = |d: CDef, local: bool, scope: &str, site: &str, out: &mut Vec<L>| {
+        let (_, shown, doubled) = const_val(d.kind, local);
+        // the two spellings: bare, and the suffix of the constant's type
+        let sps = [None, Some(d.kind)];
+        let sp_tag = |sp: Sp| -> &'static str {
+            match (sp, d.sp) {
+                (None, None) => "bare-of-bare-decl",
+                (None, Some(_)) => "bare-of-suffixed-decl",
+                (Some(_), None) => "suffix-of-bare-decl",
+                (Some(_), Some(_)) => "suffix-of-suffixed-decl",
+            }
+        };
+        for sp in sps {
+            n_ref += 1;
+            out.push(print_l(marker(), &nm(sp, CASES[n_ref % 4]), shown, &format!("{}-direct-{}", site, sp_tag(sp))));
+        }
+        // a later constant expression of the same scope
+        for (k, sp) in sps.iter().enumerate() {
+            n_ref += 1;
+            let dn = format!("M{}{}{}{}", scope, idx, k, if d.kind == Q::Str && (n_ref % 2 == 0) { "$" } else { "" });
+            let expr = if d.kind == Q::Str { format!("{} + \"!\"", nm(*sp, CASES[n_ref % 4])) } else { format!("{} * 2", nm(*sp, CASES[n_ref % 4])) };
+            out.push(stmt(format!("CONST {} = {}", dn, expr), &format!("{}-in-const-expr-{}", site, sp_tag(*sp))));
+            out.push(print_l(marker(), &dn, doubled, &format!("{}-in-const-expr-{}", site, sp_tag(*sp))));
+        }
+        if d.kind == Q::Int {
+            n_ref += 1;
+            let sp = sps[n_ref % 2];
+            let bn = format!("B{}{}", scope, idx);
+            out.push(stmt(format!("DIM {} AS STRING * {}", bn, nm(sp, CASES[n_ref % 4])), &format!("{}-as-string-length-{}", site, sp_tag(sp))));
+            out.push(print_l(marker(), &format!("LEN({})", bn), shown, &format!("{}-as-string-length-{}", site, sp_tag(sp))));
+        }
+    };
+    let (glit, _, _) = const_val(c.g.kind, false);
+    let (llit, _, _) = const_val(c.l.kind, true);
+    // ---- module level, before the calls
+    out.g1.push(stmt(format!("CONST {} = {}", nm(c.g.sp, c.decl_cs), glit), "decl-const"));
+    uses(c.g, false, "g", "const-global", &mut out.g1);
+    // ---- subprograms: [other1] redef other2
+    let subprogram = |name: &str, func: bool, body: Vec<L>, out: &mut UnitOut| {
+        if func {
+            out.g1.push(stmt(format!("Wret% = {}%(0)", name), "call"));
+            out.sub.push(stmt(format!("FUNCTION {}% (Wp%)", name), "decl-subprogram-header"));
+        } else {
+            out.g1.push(stmt(name.to_string(), "call"));
+            out.sub.push(stmt(format!("SUB {}", name), "decl-subprogram-header"));
+        }
+        out.sub.extend(body);
+        if func {
+            out.sub.push(stmt(format!("{}% = 1", name), "subprogram-frame"));
+            out.sub.push(stmt("END FUNCTION".to_string(), "subprogram-frame"));
+        } else {
+            out.sub.push(stmt("END SUB".to_string(), "subprogram-frame"));
+        }
+    };
+    let mut body = vec![];
+    uses(c.g, false, "p", "const-global-in-sub-before-shadowing-sub", &mut body);
+    subprogram(&format!("Cp{}", idx), c.other_func, body, &mut out);
+    let mut body = vec![stmt(format!("CONST {} = {}", nm(c.l.sp, CASES[(c.rot + 1) % 4]), llit), "decl-local-const-shadowing-global")];
+    uses(c.l, true, "r", "const-local-shadow", &mut body);
+    subprogram(&format!("Cr{}", idx), c.redef_func, body, &mut out);
+    let mut body = vec![];
+    uses(c.g, false, "q", "const-global-in-sub-after-shadowing-sub", &mut body);
+    subprogram(&format!("Cq{}", idx), !c.other_func, body, &mut out);
+    // ---- module level, after the calls
+    uses(c.g, false, "h", "after-call-const-global", &mut out.g2);
+    if c.tail {
+        uses(c.g, false, "t", "after-subprograms-const-global", &mut out.tail);
+    }
+    out
+}
+
 // ------------------------------------------------------------------------------------------------
 // programs and their check
 // ------------------------------------------------------------------------------------------------
@@ -955,6 +1418,8 @@ fn assemble(defs: &[DefStmt], t: &DefTable, units: &[Unit], up: bool) -> Prog {
         .map(|(i, u)| match u {
             Unit::Name(c) => render_case(c, t, i, up),
             Unit::Func(f) => render_fn(f, t, i, up),
+            Unit::Arr(a) => render_arr(a, t, i, up),
+            Unit::Const(c) => render_const(c, t, i, up),
         })
         .collect();
     let mut src = String::new();
@@ -992,6 +1457,11 @@ fn assemble(defs: &[DefStmt], t: &DefTable, units: &[Unit], up: bool) -> Prog {
     }
     for (i, o) in outs.iter().enumerate() {
         for l in &o.sub {
+            push(&mut p, &mut src, l, i);
+        }
+    }
+    for (i, o) in outs.iter().enumerate() {
+        for l in &o.tail {
             push(&mut p, &mut src, l, i);
         }
     }
@@ -1044,6 +1514,11 @@ impl Prog {
     }
 }
 
+/// The signature part of a tag: the spelling classes of the constant templates are evidence classes, not root causes.
+fn sig_tag(tag: &str) -> String {
+    tag.replace("-of-bare-decl", "").replace("-of-suffixed-decl", "")
+}
+
 fn viol(p: &Prog, sig: String, what: String, expected: Value, observed: Value) -> Violation {
     Violation::new(sig, what, p.to_json()).exp_obs(expected, observed)
 }
@@ -1060,7 +1535,7 @@ fn rejected_viol(p: &Prog, e: &impl_run::FrontErr) -> (Option<usize>, Violation)
             if s.unit == usize::MAX { None } else { Some(s.unit) },
             viol(
                 p,
-                format!("{}-rejected", s.tag),
+                format!("{}-rejected", sig_tag(&s.tag)),
                 format!("statement `{}` (row {}) must be accepted by the stated naming rules [{}] but the program is rejected there with {}", p.line(row), row, s.tag, e.class()),
                 json!("accepted"),
                 e.to_json(),
@@ -1109,7 +1584,7 @@ fn check_prog(p: &Prog) -> Vec<(Option<usize>, Violation)> {
             let (unit, tag) = p.stmts.iter().find(|s| s.row == row).map(|s| (Some(s.unit), s.tag.clone())).unwrap_or((None, "unattributed".into()));
             return vec![(
                 unit.filter(|u| *u != usize::MAX),
-                viol(p, format!("{}-runtime-error", tag), format!("statement `{}` (row {}) raised {} at run time", p.line(row), row, name), json!("ok"), out.end.to_json()),
+                viol(p, format!("{}-runtime-error", sig_tag(&tag)), format!("statement `{}` (row {}) raised {} at run time", p.line(row), row, name), json!("ok"), out.end.to_json()),
             )];
         }
     }
@@ -1140,7 +1615,7 @@ fn check_prog(p: &Prog) -> Vec<(Option<usize>, Violation)> {
         }
         let sig = match obs {
             None => "output-line-missing".to_string(),
-            Some(_) => format!("{}-mismatch", tag),
+            Some(_) => format!("{}-mismatch", sig_tag(&tag)),
         };
         let shows = match (obs, writer) {
             (Some(o), Some((_, _, st, _))) => format!("it shows {} (written by `{}`)", o, st),
@@ -1190,6 +1665,8 @@ fn unit_letter(u: &Unit) -> usize {
     match u {
         Unit::Name(c) => letter_of(&c.base),
         Unit::Func(f) => letter_of(&f.base),
+        Unit::Arr(a) => letter_of(&a.base),
+        Unit::Const(c) => letter_of(&c.base),
     }
 }
 
@@ -1197,6 +1674,8 @@ fn unit_has_case_variation(u: &Unit) -> bool {
     match u {
         Unit::Name(c) => c.decl_cs != Cs::Upper || c.g_refs.iter().chain(c.s_refs.iter()).any(|r| r.cs != Cs::Upper || r.cs2 != Cs::Upper) || c.reject.map(|r| r.cs != Cs::Upper).unwrap_or(false),
         Unit::Func(f) => f.decl_cs != Cs::Upper || f.calls.iter().chain(f.assigns.iter()).any(|(_, cs)| *cs != Cs::Upper),
+        // letter cases rotate through every reference
+        Unit::Arr(_) | Unit::Const(_) => true,
     }
 }
 
@@ -1232,6 +1711,8 @@ fn reduce(sh: &mut Shard, defs: &[DefStmt], t: &DefTable, u: &Unit, batch_v: Vio
 fn nontrivial_unit(u: &Unit, t: &DefTable) -> bool {
     match u {
         Unit::Func(_) => true, // bare and qualified spelling of the function name
+        Unit::Arr(_) => true, // a parameter is in play
+        Unit::Const(_) => true, // a CONST is in play in subprogram scopes
         Unit::Name(c) => {
             let mut sps: BTreeSet<Sp> = BTreeSet::new();
             for r in c.g_refs.iter().chain(c.s_refs.iter()) {
@@ -1251,6 +1732,12 @@ fn nontrivial_unit(u: &Unit, t: &DefTable) -> bool {
 fn unit_class(u: &Unit) -> String {
     match u {
         Unit::Func(f) => format!("function-name:{}", sp_name(f.decl_sp)),
+        Unit::Arr(a) => format!("array-param:{}|arg:{}{}", a.p_kind(), a.arg_kind(), if a.reject.is_some() { "|must-reject" } else { "" }),
+        Unit::Const(c) => format!(
+            "const-shadow:{}-kind,{}-spelling",
+            if c.g.kind == c.l.kind { "same" } else { "other" },
+            if c.g.sp.is_some() == c.l.sp.is_some() { "same" } else { "other" }
+        ),
         Unit::Name(c) => format!("g:{}|s:{}{}", c.g.kind(), c.s.kind(), if c.s != SDecl::Absent && c.func_scope { "(function)" } else { "" }),
     }
 }
@@ -1281,6 +1768,26 @@ fn run_units(sh: &mut Shard, defs: &[DefStmt], t: &DefTable, units: &[Unit]) -> 
             sh.nontrivial(hash64(&(u, &dt)));
         }
         sh.class(&unit_class(u));
+        match u {
+            Unit::Arr(a) => {
+                sh.class(&format!("array-param:elem={}", a.elem_q(t).map(|q| q.type_kw()).unwrap_or("user-type")));
+                sh.class(if a.func_scope { "array-param:in-function" } else { "array-param:in-sub" });
+                sh.class(if a.same_name { "array-param:argument-has-the-parameter's-name" } else { "array-param:argument-has-another-name" });
+                sh.class(if a.elem_q(t) == Some(a.dq(t)) { "array-param:elem-type-is-default-type-of-letter" } else { "array-param:elem-type-differs-from-default-type-of-letter" });
+                if a.scalar.is_some() {
+                    sh.class("array-param:with-scalar-of-other-type");
+                }
+            }
+            Unit::Const(c) => {
+                sh.class(&format!("const-shadow:global={}", c.g.label()));
+                sh.class(&format!("const-shadow:local={}", c.l.label()));
+                sh.class(if c.redef_func { "const-shadow:redefined-in-function" } else { "const-shadow:redefined-in-sub" });
+                if c.tail {
+                    sh.class("const-shadow:with-module-code-after-subprograms");
+                }
+            }
+            _ => {}
+        }
         let l = unit_letter(u);
         sh.class(if !t.explicit[l] { "name:letter-not-covered" } else if t.non_default(l) { "name:letter-covered-non-default" } else { "name:letter-covered-DEFSNG" });
     }
@@ -1291,6 +1798,19 @@ fn run_units(sh: &mut Shard, defs: &[DefStmt], t: &DefTable, units: &[Unit]) -> 
     }
     for e in &prog.prints {
         sh.class(&format!("print:{}", e.tag));
+    }
+    // one rendered example of each added family per worker (kept as a note: samples are capped)
+    for u in units {
+        let key = match u {
+            Unit::Arr(a) if a.reject.is_some() => "example:array-parameter-must-reject-unit",
+            Unit::Arr(_) => "example:array-parameter-unit",
+            Unit::Const(_) => "example:const-shadow-unit",
+            _ => continue,
+        };
+        if !sh.stats.notes.contains_key(key) {
+            let solo = assemble(defs, t, std::slice::from_ref(u), false);
+            sh.note(key, json!({"deftype": dt, "program": solo.src}));
+        }
     }
     sh.sample_sparse(97, || json!({"deftype": dt, "units": units.len(), "program_head": prog.src.lines().take(70).collect::<Vec<_>>().join("\n")}));
     let mut out = vec![];
@@ -1481,6 +2001,125 @@ fn fn_cases(letter: u8, k0: usize, t: &DefTable) -> Vec<(FnCase, bool)> {
     v
 }
 
+fn ap_decls() -> Vec<APDecl> {
+    ALL_SP.iter().map(|sp| APDecl::Compact(*sp)).chain(PARAM_EXT_TYPES.iter().map(|ty| APDecl::Ext(*ty))).collect()
+}
+
+/// Array parameters: every declaration style x every way of DIMming the caller's array that fits it; all
+/// spellings that denote the parameter; for compact parameters a local scalar of another type next to it.
+fn arr_units(letter: u8, rot0: usize, t: &DefTable) -> Vec<Unit> {
+    let mut v = vec![];
+    let mut rot = rot0;
+    for p in ap_decls() {
+        for arg in [ArgDecl::CompactSuffix, ArgDecl::CompactBare, ArgDecl::Ext] {
+            rot += 1;
+            let mut a = ArrCase {
+                base: base_name(letter, 0),
+                p,
+                arg,
+                same_name: (rot / 2) % 2 == 1,
+                func_scope: rot % 2 == 1,
+                decl_cs: CASES[rot % 4],
+                refs: all_refs(rot),
+                scalar: None,
+                reject: None,
+                rot,
+            };
+            if !a.arg_valid(t, arg) {
+                continue;
+            }
+            let keep: Vec<RefSp> = a.refs.iter().filter(|r| a.res(t, r.sp) == ARes::Param).cloned().collect();
+            a.refs = keep;
+            if matches!(p, APDecl::Compact(_)) {
+                a.scalar = (0..6).map(|i| ALL_SP[(i + rot) % 6]).find(|sp| a.scalar_ok(t, *sp)).map(|sp| (sp, CASES[(rot + 1) % 4]));
+            }
+            if a.undetermined(t).is_none() {
+                v.push(Unit::Arr(a));
+            }
+        }
+    }
+    v
+}
+
+/// Extended array parameters: a foreign suffix as scalar / element, assigned / printed, must be rejected.
+/// Half of the 100 (type, suffix, form) combinations per call, alternating with `rot0`.
+fn arr_reject_units(letter: u8, rot0: usize, t: &DefTable) -> Vec<Unit> {
+    let mut v = vec![];
+    let mut n = rot0;
+    for ty in PARAM_EXT_TYPES {
+        for q in QS {
+            if ty.matching() == Some(q) {
+                continue;
+            }
+            for form in 0..4usize {
+                n += 1;
+                if n % 2 == 0 {
+                    continue;
+                }
+                let r = match form {
+                    0 => ArrRej::ScalarAssign(q),
+                    1 => ArrRej::ScalarPrint(q),
+                    2 => ArrRej::ElemAssign(q),
+                    _ => ArrRej::ElemPrint(q),
+                };
+                let mut a = ArrCase {
+                    base: base_name(letter, 0),
+                    p: APDecl::Ext(ty),
+                    arg: if (n / 2) % 2 == 0 { ArgDecl::Ext } else { ArgDecl::CompactSuffix },
+                    same_name: (n / 4) % 2 == 1,
+                    func_scope: (n / 8) % 2 == 1,
+                    decl_cs: CASES[n % 4],
+                    refs: vec![RefSp { sp: if (n / 2) % 3 == 0 { ty.matching() } else { None }, cs: CASES[(n + 1) % 4], cs2: CASES[(n + 2) % 4] }],
+                    scalar: None,
+                    reject: Some((r, CASES[(n + 3) % 4])),
+                    rot: n,
+                };
+                if !a.arg_valid(t, a.arg) {
+                    a.arg = ArgDecl::Ext;
+                }
+                if a.undetermined(t).is_none() {
+                    v.push(Unit::Arr(a));
+                }
+            }
+        }
+    }
+    v
+}
+
+fn const_defs() -> Vec<CDef> {
+    QS.iter().flat_map(|k| [CDef { sp: None, kind: *k }, CDef { sp: Some(*k), kind: *k }]).collect()
+}
+
+/// Global CONST x local CONST of the same bare name: 10 x 10 (spelling, value kind) combinations
+/// (`part` = Some(k): only every third combination, starting with k % 3).
+fn const_units(letter: u8, rot0: usize, part: Option<usize>) -> Vec<Unit> {
+    let mut v = vec![];
+    let mut rot = rot0;
+    let mut n = 0usize;
+    for g in const_defs() {
+        for l in const_defs() {
+            rot += 1;
+            n += 1;
+            if let Some(k) = part {
+                if (n + k) % 3 != 0 {
+                    continue;
+                }
+            }
+            v.push(Unit::Const(ConstCase {
+                base: base_name(letter, 0),
+                g,
+                l,
+                decl_cs: CASES[rot % 4],
+                redef_func: rot % 2 == 1,
+                other_func: (rot / 2) % 2 == 1,
+                tail: (rot / 3) % 3 == 0,
+                rot,
+            }));
+        }
+    }
+    v
+}
+
 /// The few templates applied to names around the edges of a DEFtype range.
 fn core_units(letter: u8, k0: usize, rot: usize, t: &DefTable) -> Vec<Unit> {
     let tm: Vec<(GDecl, SDecl)> = vec![
@@ -1553,6 +2192,16 @@ fn rename(u: &Unit, k: usize) -> Unit {
             f.base = base_name(letter_of(&f.base) as u8, k);
             Unit::Func(f)
         }
+        Unit::Arr(a) => {
+            let mut a = a.clone();
+            a.base = base_name(letter_of(&a.base) as u8, k);
+            Unit::Arr(a)
+        }
+        Unit::Const(c) => {
+            let mut c = c.clone();
+            c.base = base_name(letter_of(&c.base) as u8, k);
+            Unit::Const(c)
+        }
     }
 }
 
@@ -1574,6 +2223,8 @@ fn all_templates(en: &mut Enumerator, sh: &mut Shard, defs: &[DefStmt], t: &DefT
     for (f, r) in fn_cases(letter, 0, t) {
         if r { risky.push(Unit::Func(f)) } else { units.push(Unit::Func(f)) }
     }
+    units.extend(arr_units(letter, rot0, t));
+    units.extend(const_units(letter, rot0, if defs.is_empty() { None } else { Some(rot0) }));
     en.batched(sh, defs, t, units);
     for u in risky {
         en.program(sh, defs, t, &[rename(&u, 0)]);
@@ -1583,6 +2234,9 @@ fn all_templates(en: &mut Enumerator, sh: &mut Shard, defs: &[DefStmt], t: &DefT
             if let Some(c) = reject_case(base_name(letter, 0), g, s, rej, rot0 + i, t) {
                 en.program(sh, defs, t, &[Unit::Name(c)]);
             }
+        }
+        for u in arr_reject_units(letter, rot0, t) {
+            en.program(sh, defs, t, &[u]);
         }
     }
 }
@@ -1664,6 +2318,8 @@ fn enumerate(sh: &mut Shard) -> bool {
         }
     }
     sh.exhaustive("26 letters x 5 DEFtype statements (single letter; `DEFINT A` / `defint a` alternating) x every single-name template: 35 global x 30 subprogram declaration kinds (minus the undetermined combinations) of the base name with all accepted spellings in both letter cases, 36 function-name templates, and 422 must-reject templates (foreign suffix on an extended variable by assignment / PRINT in global, shared-in-sub, local and parameter position; extended + compact DIM of one base name)");
+    sh.exhaustive("array parameters, under no DEFtype (letters A H M S Z) and under each of the 26 x 5 single-letter DEFtype statements: 12 declaration styles (`A()` `A%()` `A&()` `A!()` `A#()` `A$()` compact; `A() AS INTEGER|LONG|SINGLE|DOUBLE|STRING|user TYPE` extended) x every fitting way of DIMming the caller's array (`DIM G%(1 TO 3)`, bare `DIM G(1 TO 3)` when the default type fits, `DIM G(1 TO 3) AS t`), in SUB and FUNCTION, caller's array with the parameter's name or another one, all six spellings resolved (denotes the parameter / rejected / undetermined), plus per configuration half of the 100 must-reject statements (6 extended element types x foreign suffixes x scalar/element x assignment/PRINT, alternating)");
+    sh.exhaustive("constants: global CONST x CONST of the same bare name in one SUB/FUNCTION, 10 x 10 combinations of (declared bare | with suffix) x (INTEGER, LONG, SINGLE, DOUBLE, STRING literal) - all 100 under no DEFtype for 5 letters, every third one (rotating) under each of the 130 single-letter DEFtype statements; each referenced bare and suffixed, directly, in a later CONST expression and (INTEGER) as STRING * n length, at module level before / after the calls / after the subprogram definitions, in the redefining subprogram, and in a non-redefining subprogram textually before and after it");
     !en.stop
 }
 
@@ -1812,6 +2468,93 @@ fn random_program_case(sh: &mut Shard, tape: &[u32]) -> Result<(), Violation> {
             units.push(Unit::Func(f));
             continue;
         }
+        match t.choose(10) {
+            8 => {
+                let p = if t.chance(1, 2) { APDecl::Compact(rand_sp(&mut t)) } else { APDecl::Ext(PARAM_EXT_TYPES[t.choose(6)]) };
+                let arg = [ArgDecl::Ext, ArgDecl::CompactSuffix, ArgDecl::CompactBare][t.choose(3)];
+                let mut a = ArrCase {
+                    base,
+                    p,
+                    arg,
+                    same_name: t.chance(1, 2),
+                    func_scope: t.chance(1, 3),
+                    decl_cs: CASES[t.choose(4)],
+                    refs: rand_refs(&mut t),
+                    scalar: None,
+                    reject: None,
+                    rot: t.choose(24),
+                };
+                if !a.arg_valid(&table, a.arg) {
+                    a.arg = ArgDecl::Ext;
+                }
+                let mut kept = vec![];
+                let mut rejected: Vec<RefSp> = vec![];
+                for r in &a.refs {
+                    match a.res(&table, r.sp) {
+                        ARes::Param => kept.push(*r),
+                        ARes::Reject => rejected.push(*r),
+                        ARes::Undet(why) => sh.discard(why),
+                    }
+                }
+                if kept.is_empty() {
+                    // the spelling of the declaration
+                    let sp = match a.p {
+                        APDecl::Compact(sp) => sp,
+                        APDecl::Ext(_) => None,
+                    };
+                    kept.push(RefSp { sp, cs: Cs::Mixed, cs2: Cs::Mixed });
+                }
+                kept.truncate(4);
+                a.refs = kept;
+                if matches!(a.p, APDecl::Compact(_)) && t.chance(1, 2) {
+                    let sp = rand_sp(&mut t);
+                    if a.scalar_ok(&table, sp) {
+                        a.scalar = Some((sp, CASES[t.choose(4)]));
+                    } else {
+                        sh.discard("a scalar and an array parameter of the same name and type in one subprogram");
+                    }
+                }
+                if with_reject {
+                    if let Some(r) = rejected.first() {
+                        if let Some(q) = r.sp {
+                            with_reject = false;
+                            let rj = match t.choose(4) {
+                                0 => ArrRej::ScalarAssign(q),
+                                1 => ArrRej::ScalarPrint(q),
+                                2 => ArrRej::ElemAssign(q),
+                                _ => ArrRej::ElemPrint(q),
+                            };
+                            a.reject = Some((rj, r.cs));
+                        }
+                    }
+                }
+                match a.undetermined(&table) {
+                    Some(why) => sh.discard(why),
+                    None => units.push(Unit::Arr(a)),
+                }
+                continue;
+            }
+            9 => {
+                let mut cdef = |t: &mut Tape| -> CDef {
+                    let kind = QS[t.choose(5)];
+                    CDef { sp: if t.chance(1, 2) { Some(kind) } else { None }, kind }
+                };
+                let g = cdef(&mut t);
+                let l = cdef(&mut t);
+                units.push(Unit::Const(ConstCase {
+                    base,
+                    g,
+                    l,
+                    decl_cs: CASES[t.choose(4)],
+                    redef_func: t.chance(1, 2),
+                    other_func: t.chance(1, 2),
+                    tail: t.chance(1, 3),
+                    rot: t.choose(24),
+                }));
+                continue;
+            }
+            _ => {}
+        }
         let mut c = Case {
             base,
             g: rand_gdecl(&mut t),
@@ -1875,18 +2618,21 @@ impl Prop for C13 {
         "C13"
     }
     fn rule(&self) -> &'static str {
-        "One case = one name-configuration unit: a base name (first letter chosen against the DEFtype statements at the top of the program) with one declaration kind in the global scope {absent, implicit use, DIM x<q> (compact, one or two qualifiers), DIM x AS t (INTEGER/LONG/SINGLE/DOUBLE/STRING/STRING*3/user TYPE), both also as DIM SHARED, CONST} and one in a SUB or FUNCTION scope {absent, implicit use, DIM compact, DIM extended, parameter x<q>, parameter x AS t, CONST}, or the base name is a FUNCTION name. The program assigns a distinct small integer (or 3-character string) through every spelling (bare and % & ! # $, mixed letter cases) that the reference resolver accepts and prints through every spelling: in the global scope before and after the call, in the subprogram before and after its own assignments. Up to 12 units with different base names share one program (attribution by source row / output marker). Expected values come from the independent resolver written from the statement + README; a must-reject unit carries one statement (foreign suffix on an extended variable, or extended + qualified compact DIM) that has to be rejected at its row. Enumerated part (identical in both tiers): see exhaustive_parts; random part: 0-3 DEFtype statements with up to 3 letters/ranges each in random letter case, 1-6 units with random declarations, spellings, orders, letter cases. A unit is non-trivial when it uses >= 2 spellings of its base name, or a non-SINGLE DEFtype covers its letter, or a subprogram scope has SHARED / a parameter / a CONST in play; distinct by unit configuration + DEFtype text."
+        "One case = one name-configuration unit: a base name (first letter chosen against the DEFtype statements at the top of the program) with one declaration kind in the global scope {absent, implicit use, DIM x<q> (compact, one or two qualifiers), DIM x AS t (INTEGER/LONG/SINGLE/DOUBLE/STRING/STRING*3/user TYPE), both also as DIM SHARED, CONST} and one in a SUB or FUNCTION scope {absent, implicit use, DIM compact, DIM extended, parameter x<q>, parameter x AS t, CONST}, or the base name is a FUNCTION name. The program assigns a distinct small integer (or 3-character string) through every spelling (bare and % & ! # $, mixed letter cases) that the reference resolver accepts and prints through every spelling: in the global scope before and after the call, in the subprogram before and after its own assignments. Up to 12 units with different base names share one program (attribution by source row / output marker). Expected values come from the independent resolver written from the statement + README; a must-reject unit carries one statement (foreign suffix on an extended variable, or extended + qualified compact DIM) that has to be rejected at its row. Enumerated part (identical in both tiers): see exhaustive_parts; random part: 0-3 DEFtype statements with up to 3 letters/ranges each in random letter case, 1-6 units with random declarations, spellings, orders, letter cases. ADDED (array parameters): a unit whose base name is an ARRAY PARAMETER of a SUB/FUNCTION, declared compact (`A%()`, `A$()`, bare `A()` typed by DEFtype) or extended (`A() AS INTEGER|LONG|SINGLE|DOUBLE|STRING|user TYPE`); a module-level array of the same element type (DIMmed compact with suffix, compact bare, or extended; same or another base name) gets two distinct element values and is passed; inside the subprogram every spelling that the resolver makes denote the parameter (extended: bare + matching suffix; compact: the suffix, and the bare name iff the letter's default type is the element type) reads the caller's values, three elements are written through alternating spellings and read back through every spelling, and the caller prints all three elements after return; next to a compact parameter a scalar of the same base name and ANOTHER type must be a fresh local; next to an extended parameter a foreign suffix (scalar or element, assignment or PRINT) must be rejected at its row. ADDED (constants): a unit with a global CONST and a CONST of the same bare name inside one SUB/FUNCTION (declared bare or suffixed, INTEGER/LONG/SINGLE/DOUBLE/STRING literal, so same and different suffix / value kind, always different values); the name is referenced bare and with the suffix of the innermost definition's type - directly, inside a later `CONST M = name * 2` / `name + \"!\"`, and as `DIM B AS STRING * name` (LEN printed) - at module level before the calls, after the calls and (one third) after the subprogram definitions, in the redefining subprogram after its CONST, and in two non-redefining subprograms (one textually before, one after the redefining one; one SUB, one FUNCTION): the innermost definition must win everywhere in the redefining subprogram, the global one everywhere else. A unit is non-trivial when it is one of these two kinds, or uses >= 2 spellings of its base name, or a non-SINGLE DEFtype covers its letter, or a subprogram scope has SHARED / a parameter / a CONST in play; distinct by unit configuration + DEFtype text."
     }
     fn assumptions(&self) -> Vec<&'static str> {
         vec![
             "a variable that was never assigned prints 0 (numeric) or the empty string; an unassigned STRING * n is never printed",
             "DEFtype statements stand at the top of the program, before any use and before every SUB/FUNCTION; when two ranges of different types cover one letter the case is discarded",
             "arguments are literals, so that parameter passing by reference cannot couple the scopes; a parameter of the user-defined type receives a scratch variable that is not observed",
-            "discarded as undetermined by the statement/README: a CONST referenced through another spelling than its declaration or coexisting with variables/declarations of the same base name; a local DIM / parameter / CONST with the base name of a DIM SHARED variable or of a global CONST; DIM after an implicit use; the same variable DIMmed twice; function names called through a foreign suffix or coexisting with variables of the same base name",
+            "discarded as undetermined by the statement/README: a CONST referenced through another spelling than its declaration or coexisting with variables/declarations of the same base name; a local DIM / parameter with the base name of a DIM SHARED variable or of a global CONST (a local CONST over a global CONST is decided: see constants); DIM after an implicit use; the same variable DIMmed twice; function names called through a foreign suffix or coexisting with variables of the same base name",
             "a CONST is visible as its value in its own scope and (global CONST) in every subprogram; its value is printed like a literal of that type",
             "a FUNCTION's result type follows the bare/qualified rule (suffix, else the default type of its first letter); it can be called and its result assigned through the bare name or the matching suffix",
             "an extended variable and a qualified compact DIM of the same base name in one scope are rejected in either order (README: 'when in scope, you can't have any other qualified name of the same bare name')",
             "a must-reject prediction is met by any parse/lint error positioned in the row of the offending statement",
+            "array parameters: a parameter declared `A() AS type` is an extended name like `A AS type` (README lists parameters among the extended names; the statement's DIM A AS type rule), a parameter `A%()` / `A()` is a compact name (bare = default type of the first letter); an array argument is passed by reference, so elements assigned in the subprogram are the caller's elements after return; spellings of the parameter's base name that denote no declared array (implicit arrays) and a scalar of the parameter's own name and type are not referenced (undetermined)",
+            "constants: inside a subprogram the innermost CONST of a bare name wins for every later use in that subprogram, including constant expressions (right side of a later CONST, STRING * n length); other subprograms and the module level see the global CONST (the property's priority list: local constant before global constant; names_outer.rs rule 4). A CONST is referenced bare or with the suffix of its type; the type of a bare CONST is the type of its literal (QBasic CONST documentation; rules 2/3 in names_outer.rs) - these references carry their own evidence classes (suffix-of-bare-decl). LEN of a STRING * n variable is n; 7.5 * 2, 7.25# * 2 and the integer products are exact",
+            "module-level statements written after the subprogram definitions belong to the module level",
         ]
     }
     fn run(&self, sh: &mut Shard) {
